@@ -984,6 +984,7 @@ pub fn run_generated(env: &Env, prop: &str, thorough: bool, verif_seed: u64, run
         ops,
         sanitizer: None,
         tier: None,
+        build: Some(crate::coord::build_variant().into()),
     };
     (trace, out)
 }
